@@ -48,9 +48,10 @@ def _dotted(node):
 class Tr:
     """env: dotted python path -> (lean expression, type) with type in nat | bool | ety | natlist"""
 
-    def __init__(self, env, helpers=None):
+    def __init__(self, env, helpers=None, opaque=None):
         self.env = env
         self.helpers = helpers or {}   # name -> FunctionDef of a side-effect free helper (single return expression)
+        self.opaque = opaque or {}     # dotted name of a call whose RESULT is a parameter of the translated function
         self.depth = 0
 
     def inline(self, node):
@@ -100,6 +101,8 @@ class Tr:
 
     def atom(self, node):
         if isinstance(node, ast.Constant):
+            if node.value is None:
+                return "none", "none"
             if node.value is True:
                 return "true", "bool"
             if node.value is False:
@@ -134,11 +137,28 @@ class Tr:
         if isinstance(node, (ast.BoolOp, ast.Compare)) or (isinstance(node, ast.UnaryOp) and isinstance(node.op, ast.Not)):
             return self.cond(node), "bool"
         if isinstance(node, ast.Call):
+            try:
+                cname = _dotted(node.func)
+            except Unsupported:
+                cname = None
+            if cname in self.opaque:
+                return self.opaque[cname]
             return self.inline(node)
         raise Unsupported(f"expression {ast.dump(node)[:80]}")
 
     def cmp1(self, op, l, r):
         (a, ta), (b, tb) = l, r
+        # `x is None` / `x is not None` / `x == None` for an optional value: the environment gives the Lean Bool for
+        # "x is None" (type optB)
+        if isinstance(b, str) and tb == "none" and ta == "optB":
+            if isinstance(op, (ast.Is, ast.Eq)):
+                return a
+            if isinstance(op, (ast.IsNot, ast.NotEq)):
+                return f"(!{a})"
+            raise Unsupported("ordering against None")
+        if isinstance(op, (ast.Is, ast.IsNot)) and not (ta == "bool" and tb == "bool"):
+            # identity of integers / objects is not equality (CPython caches small ints only): no static claim
+            raise Unsupported("identity comparison of non-None values")
         if isinstance(op, (ast.In, ast.NotIn)) and isinstance(b, list):
             # membership in a tuple / list / set literal: a disjunction of equalities
             if any(t != ta for _e, t in b):
@@ -179,6 +199,8 @@ class Tr:
             parts = [self.cmp1(op, items[i], items[i + 1]) for i, op in enumerate(node.ops)]
             return parts[0] if len(parts) == 1 else "(" + " && ".join(parts) + ")"
         e, t = self.atom(node)
+        if t == "optB":
+            return f"(!{e})"   # truth value of an optional object reference: "is not None" (handles and tasks are truthy)
         if t != "bool":
             raise Unsupported("truth value of a non-boolean")
         return e
@@ -533,6 +555,82 @@ def gen_sd_filter(tree):
     return tr.cond(first.test)
 
 
+
+def _leading_guards(stmts):
+    """the `if <cond>: return [False]` statements at the start of a body (docstring and comments skipped): the conditions
+    under which the method does nothing; stops at the first other statement"""
+    conds = []
+    rest = [b for b in stmts if not (isinstance(b, ast.Expr) and isinstance(b.value, ast.Constant))]
+    while rest and isinstance(rest[0], ast.If) and not rest[0].orelse:
+        body = [b for b in rest[0].body if not _is_log(b)]
+        if len(body) == 1 and isinstance(body[0], ast.Return) and (
+                body[0].value is None or (isinstance(body[0].value, ast.Constant) and body[0].value.value is False)):
+            conds.append(rest[0].test)
+            rest = rest[1:]
+        else:
+            break
+    return conds, rest
+
+
+def gen_offer_suppressed(tree):
+    """ServiceInstance._send_offer(remote, stop): when is nothing queued?"""
+    fn = _method(tree, "ServiceInstance", "_send_offer")
+    a = _args(fn)   # self, remote, stop
+    if len(a) != 3:
+        raise Unsupported("signature")
+    conds, rest = _leading_guards(fn.body)
+    if not conds or not rest:
+        raise Unsupported("no leading guards")
+    env = {f"{a[0]}._task": ("task.isNone", "optB"), a[1]: ("remote.isNone", "optB"),
+           f"{a[0]}._can_answer_offers": ("canAnswer", "bool"), a[2]: ("stop", "bool")}
+    tr = Tr(env)
+    return "(" + " || ".join(tr.cond(c) for c in conds) + ")"
+
+
+def gen_subscribe_refused(tree):
+    """ServiceInstance.handle_subscribe: the leading `return False` guards (m = what matches_subscribe returned)"""
+    fn = _method(tree, "ServiceInstance", "handle_subscribe")
+    a = _args(fn)
+    conds, rest = _leading_guards(fn.body)
+    if not conds or not rest:
+        raise Unsupported("no leading guards")
+    env = {f"{a[0]}._task": ("task.isNone", "optB")}
+    tr = Tr(env, opaque={f"{a[0]}.service.matches_subscribe": ("m", "bool")})
+    return "(" + " || ".join(tr.cond(c) for c in conds) + ")"
+
+
+def gen_inst_matches_find(tree):
+    """ServiceInstance.matches_find(entry, addr) as a function of _can_answer_offers and of service.matches_find(entry)"""
+    fn = _method(tree, "ServiceInstance", "matches_find")
+    a = _args(fn)
+    env = {f"{a[0]}._can_answer_offers": ("canAnswer", "bool")}
+    body = [b for b in fn.body if not _is_log(b)]
+    # log calls inside the guards are dropped as well
+    def strip(stmts):
+        out = []
+        for b in stmts:
+            if _is_log(b):
+                continue
+            if isinstance(b, ast.If):
+                b = ast.If(test=b.test, body=strip(b.body), orelse=strip(b.orelse))
+            out.append(b)
+        return out
+    return Tr(env, opaque={f"{a[0]}.service.matches_find": ("m", "bool")}).body(strip(body), raises=False)
+
+
+def gen_queue_window(tree):
+    """ServiceAnnouncer.queue_send: (sent at once?, new collection window?)"""
+    fn = _method(tree, "ServiceAnnouncer", "queue_send")
+    a = _args(fn)
+    body = [b for b in fn.body if not (isinstance(b, ast.Expr) and isinstance(b.value, ast.Constant))]
+    if not (len(body) >= 3 and isinstance(body[0], ast.If) and not body[0].orelse and _terminates(body[0].body)
+            and isinstance(body[1], ast.Assign) and isinstance(body[1].targets[0], ast.Name) and isinstance(body[2], ast.If)):
+        raise Unsupported("shape of queue_send")
+    q = body[1].targets[0].id
+    env = {f"{a[0]}.timings.SEND_COLLECTION_TIMEOUT": ("coll", "nat"), q: ("qNone", "optB"), f"{q}.done": ("done", "bool")}
+    tr = Tr(env)
+    return tr.cond(body[0].test), tr.cond(body[2].test)
+
 ITEMS = [
     # (lean name, signature, fallback = the model's own function, generator)
     ("matchesOffer", "(s : Service) (e : SDEntry) : Except Err Bool", "s.matchesOffer e", lambda c, s: gen_matches(c, "matches_offer")),
@@ -556,6 +654,13 @@ ITEMS = [
     ("svcMalformedCode", ": RetCode", ".malformedMessage", lambda c, s: gen_svc(_parse("service.py"))[1]),
     ("svcPositive", "(m : Header) (hasResponse : Bool) : Bool", "hasResponse && decide (m.mt = .request)",
      lambda c, s: gen_svc(_parse("service.py"))[2]),
+    # guards of the stateful methods: when does the method do nothing / which branch does it take
+    ("offerSuppressed", "(task remote : Option Nat) (canAnswer stop : Bool) : Bool",
+     "!stop && (task.isNone || (remote.isSome && !canAnswer))", lambda c, s: gen_offer_suppressed(s)),
+    ("subscribeRefused", "(task : Option Nat) (m : Bool) : Bool", "task.isNone || !m", lambda c, s: gen_subscribe_refused(s)),
+    ("instMatchesFind", "(canAnswer m : Bool) : Bool", "canAnswer && m", lambda c, s: gen_inst_matches_find(s)),
+    ("queueImmediate", "(coll : Nat) : Bool", "decide (coll = 0)", lambda c, s: gen_queue_window(s)[0]),
+    ("queueNewWindow", "(qNone done : Bool) : Bool", "qNone || done", lambda c, s: gen_queue_window(s)[1]),
 ]
 
 
